@@ -478,7 +478,7 @@ pub fn judge(c: &Cmd, p: &Probe) -> Judge {
 
 pub fn run(ctx: &Ctx) {
     ctx.shrink_iters.store(200, std::sync::atomic::Ordering::Relaxed);
-    ctx.set_rule("proptest-generated command lines for the REAL ipputil binary built from /repo (document from --file or stdin - one case in six through a named pipe given as --file or through --file=/dev/stdin, objects whose size on disk says nothing about their content -, 0 B-256 KiB of arbitrary bytes; optional --job-name / --user-name (any UTF-8); 0-6 --option key=value with values of each textual class: true/false, decimal i32 incl. sign, leading zeros, +-2^31 edges, keywords, values containing '=', near-misses like 'True', ' 7', '1e3'; duplicate keys; 0-2 further --option arguments WITHOUT '=' at generated positions among them (not key=value options: they carry nothing and must not disturb the others); -n on/off; 0-2 --header) x scripted printer on a loopback HTTP server (Get-Printer-Attributes answer: HTTP status, IPP status, state 3/4/5, reasons absent/informational/with a blocking keyword at any position; Print-Job answer: HTTP status, IPP status; in 10 % of the cases (with -n) the printer resets the connection in the middle of the upload: exit status non-zero, and any Print-Job that arrives completely afterwards must still carry the whole document). Oracle: transcript model (which operations the printer sees, in order), Print-Job payload == document bytes, attributes == expected model with options typed by the harness's own classifier, custom headers on every request, exit status 0 <=> every exchange succeeded with a successful status and the gate did not block. Non-trivial = document >= 1 KiB or from stdin, with >= 1 option and the state check active; distinct by (command line, script) hash.");
+    ctx.set_rule("proptest-generated command lines for the REAL ipputil binary built from /repo (HTTP replies 200 / 400 401 403 404 408 429 500 502 503 504, in half of the cases an error given once per operation only, so that a silently repeated request would succeed; document from --file or stdin - one case in six through a named pipe given as --file or through --file=/dev/stdin, objects whose size on disk says nothing about their content -, 0 B-256 KiB of arbitrary bytes; optional --job-name / --user-name (any UTF-8); 0-6 --option key=value with values of each textual class: true/false, decimal i32 incl. sign, leading zeros, +-2^31 edges, keywords, values containing '=', near-misses like 'True', ' 7', '1e3'; duplicate keys; 0-2 further --option arguments WITHOUT '=' at generated positions among them (not key=value options: they carry nothing and must not disturb the others); -n on/off; 0-2 --header) x scripted printer on a loopback HTTP server (Get-Printer-Attributes answer: HTTP status, IPP status, state 3/4/5, reasons absent/informational/with a blocking keyword at any position; Print-Job answer: HTTP status, IPP status; in 10 % of the cases (with -n) the printer resets the connection in the middle of the upload: exit status non-zero, and any Print-Job that arrives completely afterwards must still carry the whole document). Oracle: transcript model (which operations the printer sees, in order), Print-Job payload == document bytes, attributes == expected model with options typed by the harness's own classifier, custom headers on every request, exit status 0 <=> every exchange succeeded with a successful status and the gate did not block. Non-trivial = document >= 1 KiB or from stdin, with >= 1 option and the state check active; distinct by (command line, script) hash.");
     ctx.assume("only printer states for which the readiness truth table is defined (state 3/4/5, keyword reasons) are scripted");
     let (shards, per) = ctx.tier.pick((16, 75), (16, 1500));
     run_prop(ctx, "print", shards, per, cmd, judge, cmd_json);
